@@ -37,6 +37,9 @@ def generate(rng, tier):
                 p, nd = rng.choice(ss)
                 c = replace_at(c, p, a_int('singleton', -rng.choice([1, 4096]))); c[1] += '-negs'
         out.append(c)
+    # worlds in which the same short names are defined in several modules: the accessor's type is the scoping rule's binding
+    from .c11 import gen_case
+    out += [gen_case(rng, 'clash%d' % i) for i in range(n // 6)]
     from .. import o4exec
     return out + o4exec.exec_worlds(rng, 10 if tier == 'quick' else 200, **dict(p_singleton=0.7, p_extern_val=0.8, p_enum=0.4, p_flags=0.8, p_impl=0.2))
 
@@ -103,7 +106,7 @@ def judge(c, impl, model):
             g = got[0]
             if g[4] != attr_fn(xv[4][1:], 'address'):
                 report('C15/extern-address', '%s: declared %d, emitted %d' % (xv[2], attr_fn(xv[4][1:], 'address'), g[4]))
-            if not ty_matches(xv[3], g[3]):
+            if not ty_matches(xv[3], g[3], binder(c, mp)):
                 report('C15/extern-type', '%s: declared %s, emitted %s' % (xv[2], dump(xv[3]), g[3]))
             if (str(g[1]) == 'pub') != (xv[1] == 'pub'):
                 report('C15/accessor-visibility', xv[2])
